@@ -19,6 +19,7 @@ import Driver.Sock
 import Driver.RwSpec
 import Driver.SemLog
 import Driver.IntrLog
+import Driver.ObjLog
 /-! `driver <model>`: one op per stdin line, one canonical result line per op on stdout. -/
 
 structure Model where
@@ -44,6 +45,7 @@ def dispatch (model : String) : Option Model :=
   | "ser" => some ⟨Driver.Ser.St, {}, Driver.Ser.step⟩
   | "file" => some ⟨Driver.File.St, {}, Driver.File.step⟩
   | "rpc" => some ⟨Driver.Rpc.D, {}, Driver.Rpc.step⟩
+  | "objlog" => some ⟨Driver.ObjLog.D, {}, Driver.ObjLog.step⟩
   | "intrlog" => some ⟨Driver.IntrLog.D, {}, Driver.IntrLog.step⟩
   | "semlog" => some ⟨Driver.SemLog.D, {}, Driver.SemLog.step⟩
   | "rwspec" => some ⟨Driver.RwSpec.D, {}, Driver.RwSpec.step⟩
